@@ -257,6 +257,9 @@ func (e *evalCtx) binary(t *ast.BinaryExpr) Val {
 		return boolVal(r)
 	case token.LSS, token.LEQ, token.GTR, token.GEQ:
 		op := map[token.Token]string{token.LSS: "<", token.LEQ: "<=", token.GTR: ">", token.GEQ: ">="}[t.Op]
+		if x.K == kStr && y.K == kStr {
+			return boolVal(e.c.strOrder(t.Op, x.S, y.S))
+		}
 		if !isIntLike(x) || !isIntLike(y) {
 			e.fail("ordering of non-integers in %s", exprString(t))
 		}
